@@ -5,6 +5,9 @@
 -/
 import BufrModel.Coder.Walk
 import BufrModel.Gen.PyDescriptors
+import BufrModel.Lemmas.CoderSrc
+import BufrModel.Lemmas.CoderOpSrc
+set_option linter.unusedSimpArgs false
 namespace Bufr
 open PyGen.descriptors
 
@@ -18,5 +21,102 @@ theorem C01_src_operator_code (id : Nat) : OperatorDescriptor.operator_code ⟨i
 theorem C01_src_operand_value (id : Nat) : OperatorDescriptor.operand_value ⟨id⟩ = (yOf id : Int) := by
   simp only [OperatorDescriptor.operand_value, yOf, Int.ofNat_eq_natCast]
   rw [Int.fmod_eq_emod_of_nonneg _ (Int.natCast_nonneg 1000)]; rfl
+
+/-! ### `CoderState.cancel_new_refvals` (203000) -/
+
+/-- `cancel_new_refvals`: the dictionary of new reference values becomes empty (the model: `newRefvals := []`);
+    nothing else changes. -/
+theorem C01_src_cancel_new_refvals {D V : Type} (φ : D → Elem) (ps : PyGen.coder.CoderState.Self D V) :
+    PyGen.coder.CoderState.cancel_new_refvals ps = { ps with new_refvals := [] } ∧
+      regsOf φ (PyGen.coder.CoderState.cancel_new_refvals ps) = { regsOf φ ps with newRefvals := [] } ∧
+      (WF ps → WF (PyGen.coder.CoderState.cancel_new_refvals ps)) :=
+  ⟨rfl, rfl, fun h => h⟩
+
+/-! ### `Coder.process_operator_descriptor`: the dispatch on operator code and operand
+
+  Definitions (`Lemmas/CoderOpSrc.lean`): `AbsSt φ A ps b s` — the Python state record `ps` and bit operator `b`
+  stand for the model state `s` (registers through the explicit `Rep` / `regsOf`, number of decoded descriptors,
+  any relation `A` on the rest); `Corr` — results agree (corresponding states, or the same error class
+  `excClass`); `CbCorr` — the three callbacks correspond to the primitives `Prims` of the model;
+  `opdOf id` — the operator descriptor object of id `id`, with `operator_code` / `operand_value` computed by the
+  functions generated from `descriptors.py`. -/
+
+/-- **The generated `process_operator_descriptor` is the model's `operatorDescriptor`**, for EVERY operator id
+    (every natural number: every operator code, implemented or not, every operand), every Python state record
+    and bit operator, every model state they stand for, and any callbacks that correspond to the primitives:
+    the two either both return, in corresponding states (same new registers through `Rep`, same data relation),
+    or both fail with the same error class.
+
+    Error classes (`excClass`): the model's `other` stands for the three ACCIDENTAL exceptions this function can
+    raise itself — `IndexError` of `204000` on an empty stack of associated-field widths (`[].pop()`), `TypeError` of
+    `237000` when no bitmap was ever defined (`iter(None)`), `NotImplementedError` for every operator code outside
+    201-208, 221-225, 232, 235-237.  The float result of `10 ** operand_value` for a negative operand
+    (`Py.powInt`) does not occur: the operand of a descriptor id is `id % 1000 ≥ 0`. -/
+theorem C01_src_process_operator_descriptor {D V B : Type} (φ : D → Elem) (A : PyData D V → B → StData → Prop)
+    (cb : PyGen.coder.Coder.process_operator_descriptor.Callbacks D V B) (P : Prims) (hcb : CbCorr φ A cb P)
+    (id : Nat) (ps : PyGen.coder.CoderState.Self D V) (b : B) (s : St) (h : AbsSt φ A ps b s) :
+    Corr φ A (PyGen.coder.Coder.process_operator_descriptor cb ps b (opdOf id)) (operatorDescriptor P id s) :=
+  opd_core φ A cb P hcb id (opdOf id) rfl (opdOf_code id) (opdOf_operand id) ps b s h
+
+/-- The same for any operator descriptor OBJECT whose attributes are what `descriptors.py` computes from its id. -/
+theorem C01_src_process_operator_descriptor_obj {D V B : Type} (φ : D → Elem) (A : PyData D V → B → StData → Prop)
+    (cb : PyGen.coder.Coder.process_operator_descriptor.Callbacks D V B) (P : Prims) (hcb : CbCorr φ A cb P)
+    (id : Nat) (d : PyGen.coder.OperatorDescriptor.Self) (hid : d.id = id)
+    (hc : d.operator_code = OperatorDescriptor.operator_code ⟨id⟩) (ho : d.operand_value = OperatorDescriptor.operand_value ⟨id⟩)
+    (ps : PyGen.coder.CoderState.Self D V) (b : B) (s : St) (h : AbsSt φ A ps b s) :
+    Corr φ A (PyGen.coder.Coder.process_operator_descriptor cb ps b d) (operatorDescriptor P id s) :=
+  opd_core φ A cb P hcb id d hid (by rw [hc, C01_src_operator_code]) (by rw [ho, C01_src_operand_value]; rfl) ps b s h
+
+/-- The hypotheses are satisfiable: callbacks that always raise an accidental exception correspond to primitives
+    that always fail with `other`; a freshly reset state stands for the initial model state. -/
+example : ∃ (cb : PyGen.coder.Coder.process_operator_descriptor.Callbacks Nat Nat Nat) (P : Prims)
+    (A : PyData Nat Nat → Nat → StData → Prop) (ps : PyGen.coder.CoderState.Self Nat Nat) (s : St),
+    CbCorr (fun _ => default) A cb P ∧ AbsSt (fun _ => default) A ps 0 s :=
+  ⟨⟨fun _ _ _ _ => .error .typeError, fun _ _ _ _ => .error .typeError, fun _ _ _ => .error .typeError⟩,
+   failPrims, fun _ _ _ => True,
+   freshOver ⟨false, 1, 0, [[]], [[]], [[]], [], [], [], 0, 5, 5, 5, [(1, 1)], [2], 3, ⟨1, 1, 1⟩, 4, 5, 2, some [], some [], 5,
+     true, 7, some [], 3, some []⟩,
+   {},
+   ⟨fun _ _ _ _ _ _ _ _ => rfl, fun _ _ _ _ _ _ _ _ => rfl, fun _ _ s _ id _ _ => by rw [marker_fail]; rfl⟩,
+   rep_freshOver _ _, rfl, trivial⟩
+
+/-- a concrete run: 201130 on the fresh state sets the width offset to 2 in both -/
+example : ∀ (cb : PyGen.coder.Coder.process_operator_descriptor.Callbacks Nat Nat Nat) (ps : PyGen.coder.CoderState.Self Nat Nat),
+    (PyGen.coder.Coder.process_operator_descriptor cb ps 0 (opdOf 201130)).map (fun r => r.1.nbits_offset) = .ok 2 := by
+  intro cb ps; rfl
+
+/-! ### the registers the model does not carry
+
+  `bitmap` and `most_recent_bitmap_is_for_reuse` have no counterpart in `Regs` (they never influence a result), so
+  `C01_src_process_operator_descriptor` says nothing about them.  The two operators that write `bitmap` are pinned
+  down exactly, as equations on the generated function. -/
+
+/-- 237255 (cancel the re-used bitmap): `bitmap` is cleared exactly when the most recent bitmap was defined for
+    re-use (236000); then the operator is recorded by `process_constant`. -/
+theorem C01_src_operator_237255_exact {D V B : Type} (cb : PyGen.coder.Coder.process_operator_descriptor.Callbacks D V B)
+    (ps : PyGen.coder.CoderState.Self D V) (b : B) (id : Nat) (hc : id / 1000 = 237) (hy : id % 1000 ≠ 0) :
+    PyGen.coder.Coder.process_operator_descriptor cb ps b (opdOf id) =
+      cb.process_constant (if ps.most_recent_bitmap_is_for_reuse then { ps with bitmap := none } else ps) b (opdOf id) 0 := by
+  have h1 := opdOf_code id
+  have h2 := opdOf_operand id
+  rw [hc] at h1
+  generalize opdOf id = d at h1 h2 ⊢
+  generalize id % 1000 = y at h2 hy
+  have e0 : (y : Int) ≠ 0 := by omega
+  cases hr : ps.most_recent_bitmap_is_for_reuse <;>
+    simp [PyGen.coder.Coder.process_operator_descriptor, h1, h2, exc_pure, exc_bind_ok, exc_bind_eta, e0, hy, hr,
+      PyGen.coder.CoderState.cancel_bitmap]
+
+/-- 235000 (cancel all back references): the back-referenced descriptors, `bitmap` and the bitmapped descriptors are
+    set to `None`; nothing else happens (no descriptor is recorded). -/
+theorem C01_src_operator_235_exact {D V B : Type} (cb : PyGen.coder.Coder.process_operator_descriptor.Callbacks D V B)
+    (ps : PyGen.coder.CoderState.Self D V) (b : B) (id : Nat) (hc : id / 1000 = 235) :
+    PyGen.coder.Coder.process_operator_descriptor cb ps b (opdOf id) =
+      .ok ({ ps with back_referenced_descriptors := none, bitmap := none, bitmapped_descriptors := none }, b) := by
+  have h1 := opdOf_code id
+  have h2 := opdOf_operand id
+  rw [hc] at h1
+  generalize opdOf id = d at h1 h2 ⊢
+  simp [PyGen.coder.Coder.process_operator_descriptor, h1, h2, exc_pure, exc_bind_ok, PyGen.coder.CoderState.cancel_all_back_references]
 
 end Bufr
